@@ -1,5 +1,7 @@
 import HcipyVerif.Model.Proto
 import HcipyVerif.Model.Cache
+import HcipyVerif.Model.CacheDecorator
+import HcipyVerif.Model.FftState
 
 /-!
 Line-protocol front end of the C05 model.
@@ -9,22 +11,49 @@ new <gridDep 0|1> <wlDep 0|1> <maxN>      start a freshly constructed element
 req <i|-> <o|-> <w|-> <gi|-> <go|->       get_instance_data(i, o, w); gi = id of
                                           get_input_grid(o, w) and go = id of get_output_grid(i', w)
                                           as observed on a *fresh* element ('-' = None / not needed)
+reqc <i|-> <o|-> <w|-> <gi|-> <go|-> <t>  a propagation through an element whose instances own a memo cell (FourierFilter of a
+                                          Fresnel / angular-spectrum instance) with a field of dtype tag <t>: `stepC` with
+                                          `memoContent`; answers as `req` plus `slot=` (dtype the cell of the instance handed
+                                          out now holds), `rebuilt=` (1 = this propagation recomputed it) and `res=` (the kernel
+                                          used: instance key / version / dtype)
 clear                                     clear_cache()
 set                                       a public setter (version bump + clear_cache())
-memo reset | memo get <tag> <drop 0|1>    memo cell (matrices_dtype etc.), compute = identity on tags
+memo reset | memo get <tag> <drop 0|1>    memo cell (matrices_dtype, ChirpZTransform._current_dtype), compute = identity on tags
+filt reset | filt get <dtype> <ndim> <[tensor shape]>
+                                          FourierFilter._compute_functions: two memo cells, tag `dtype` (transfer function) and
+                                          `(ndim, dtype, tensor shape)` (internal array); compute = number of the call, so the
+                                          value says at which call the cell was last recomputed
+zoom reset | zoom call <back 0|1> <tag>   ZoomFastFourierTransform forward/backward at complex dtype <tag>
+load <N> <M> <[buf]> <[f]>                Fft.loadArray N M buf f at positions 0..M-1 (exact rationals)
+dnew <gridDep 0|1> <wlDep 0|1> <num>      start a fresh element made by make_agnostic_optical_element
+dreq <i|-> <o|-> <w|-> <out|->            its get_instance(i, o, w); out = id of the output grid of the element that
+                                          would be constructed for input grid i ('-' = not needed)
 ```
 Responses: `ok <how> id=<n> key=<i>,<o>,<w> ver=<v> num=<n> cache=<i>,<o>,<w>:<id>;…` | `err value` |
-`err key`.
+`err key`.  `dreq`: `ok id=<n> inst=<i>,<w> cache=<I|O|-><grid>,<w>:<id>;…` | `err value|runtime|key`.
 -/
 namespace HcipyVerif.Driver.C05
 open HcipyVerif.Proto HcipyVerif.Cache
+
+/-- The content `reqc` runs: a memo cell keyed on the dtype tag; the kernel is (instance key, version, dtype). -/
+def cellContent : Content (Key × Nat × Memo Nat (Key × Nat × Nat)) Nat (Key × Nat × Nat) :=
+  memoContent fun k v t => (k, v, t)
 
 structure St where
   gridDep : Bool := true
   wlDep : Bool := true
   maxN : Nat := 11
   st : Cache.St := Cache.St.init 0
+  heap : Inst → Key × Nat × Memo Nat (Key × Nat × Nat) := cellContent.heap0
   memo : Memo Nat Nat := ⟨none⟩
+  ftf : Memo Nat Nat := ⟨none⟩
+  fia : Memo (Nat × Nat × List Nat) Nat := ⟨none⟩
+  fcalls : Nat := 0
+  zoom : Zoom Nat := Zoom.fresh
+  dGrid : Bool := true
+  dWl : Bool := true
+  dNum : Nat := 50
+  deco : Deco.DSt := Deco.DSt.init
 
 def parseOptNat? (s : String) : Option (Option Nat) :=
   if s == "-" then some none else (parseNat? s).map some
@@ -44,12 +73,43 @@ def showCache (c : List (Key × Inst)) : String :=
 def showHow : How → String
   | .hitRequest => "hit-request" | .hitFull => "hit-full" | .created => "created"
 
+def showDKey (k : Deco.DKey) : String :=
+  (match k.grid with
+   | none => "-"
+   | some (Deco.Side.input, g) => s!"I{g}"
+   | some (Deco.Side.output, g) => s!"O{g}") ++ "," ++ showOpt k.w
+
+def showDCache (c : List (Deco.DKey × Deco.DInst)) : String :=
+  ";".intercalate (c.map fun p => s!"{showDKey p.1}:{p.2.id}")
+
+def showTag3 : Option (Nat × Nat × List Nat) → String
+  | none => "-"
+  | some (n, d, ts) => s!"{n}/{d}/{showNatList ts}"
+
 def showState (s : Cache.St) : String := s!"ver={s.ver} num={s.num} cache={showCache s.cache}"
 
 def step (st : St) : List String → St × String
+  | ["reqc", i, o, w, gi, go, t] =>
+    match parseOptNat? i, parseOptNat? o, parseOptNat? w, parseOptNat? gi, parseOptNat? go, parseNat? t with
+    | some i, some o, some w, some gi, some go, some t =>
+      let e : Elem := { gridDep := st.gridDep, wlDep := st.wlDep, maxN := st.maxN,
+                        getIn := fun _ _ _ => gi, getOut := fun _ _ _ => go }
+      let r := stepC e cellContent st.st st.heap (.req i o w t)
+      match r.2.2, getInstanceDataHow e st.st i o w with
+      | .result res, .ok (_, v, how) =>
+        let before := (st.heap v).2.2.slot.map (·.1)
+        let after := (r.2.1 v).2.2.slot.map (·.1)
+        ({ st with st := r.1, heap := r.2.1 },
+          s!"ok {showHow how} id={v.id} key={showKey v.key} ver={v.ver} num={r.1.num} cache={showCache r.1.cache} " ++
+          s!"slot={showOpt after} rebuilt={if before = some t then 0 else 1} res={showKey res.1}/{res.2.1}/{res.2.2}")
+      | .error .value, _ => (st, "err value")
+      | .error .key, _ => (st, "err key")
+      | _, _ => (st, "err inconsistent")
+    | _, _, _, _, _, _ => (st, "bad-op")
   | ["new", g, w, n] =>
     match parseBool? g, parseBool? w, parseNat? n with
-    | some g, some w, some n => ({ gridDep := g, wlDep := w, maxN := n }, "ok")
+    | some g, some w, some n =>
+      ({ st with gridDep := g, wlDep := w, maxN := n, st := Cache.St.init 0, heap := cellContent.heap0 }, "ok")
     | _, _, _ => (st, "bad-op")
   | ["req", i, o, w, gi, go] =>
     match parseOptNat? i, parseOptNat? o, parseOptNat? w, parseOptNat? gi, parseOptNat? go with
@@ -77,6 +137,48 @@ def step (st : St) : List String → St × String
       let m := if d then r.1.drop else r.1
       ({ st with memo := m }, s!"ok val={r.2} slot={showOpt (m.slot.map (·.1))}")
     | _, _ => (st, "bad-op")
+  | ["filt", "reset"] => ({ st with ftf := ⟨none⟩, fia := ⟨none⟩, fcalls := 0 }, "ok")
+  | ["filt", "get", d, n, ts] =>
+    match parseNat? d, parseNat? n, parseNatList? ts with
+    | some d, some n, some ts =>
+      let c := st.fcalls + 1
+      let r1 := st.ftf.get (fun _ => c) d
+      let r2 := st.fia.get (fun _ => c) (n, d, ts)
+      ({ st with ftf := r1.1, fia := r2.1, fcalls := c },
+        s!"ok tf={showOpt (r1.1.slot.map (·.1))} tfgen={r1.2} ia={showTag3 (r2.1.slot.map (·.1))} iagen={r2.2}")
+    | _, _, _ => (st, "bad-op")
+  | ["zoom", "reset"] => ({ st with zoom := Zoom.fresh }, "ok")
+  | ["zoom", "call", b, t] =>
+    match parseBool? b, parseNat? t with
+    | some b, some t =>
+      let r := st.zoom.call id b t
+      ({ st with zoom := r.1 },
+        s!"ok val={r.2} tag={showOpt r.1.tag} czt={showOpt (r.1.czt.slot.map (·.1))} inv={showOpt (r.1.inv.slot.map (·.1))}")
+    | _, _ => (st, "bad-op")
+  | ["load", n, m, buf, f] =>
+    match parseNat? n, parseNat? m, parseRatList? buf, parseRatList? f with
+    | some n, some m, some buf, some f =>
+      if n ≤ m ∧ buf.length = m ∧ f.length = n then
+        let a := HcipyVerif.Fft.loadArray n m (fun p => buf.getD p 0) (fun p => f.getD p 0)
+        (st, "ok " ++ showRatList ((List.range m).map a))
+      else (st, "bad-op")
+    | _, _, _, _ => (st, "bad-op")
+  | ["dnew", g, w, n] =>
+    match parseBool? g, parseBool? w, parseNat? n with
+    | some g, some w, some n => ({ st with dGrid := g, dWl := w, dNum := n, deco := Deco.DSt.init }, "ok")
+    | _, _, _ => (st, "bad-op")
+  | ["dreq", i, o, w, out] =>
+    match parseOptNat? i, parseOptNat? o, parseOptNat? w, parseOptNat? out with
+    | some i, some o, some w, some out =>
+      let e : Deco.DElem := { gridDep := st.dGrid, wlDep := st.dWl, num := st.dNum,
+                              outOf := fun _ _ => out.getD 0 }
+      match Deco.getInstance e st.deco i o w with
+      | .error .value => (st, "err value")
+      | .error .runtime => (st, "err runtime")
+      | .error .key => (st, "err key")
+      | .ok (s', v) =>
+        ({ st with deco := s' }, s!"ok id={v.id} inst={showOpt v.i},{showOpt v.w} cache={showDCache s'.cache}")
+    | _, _, _, _ => (st, "bad-op")
   | _ => (st, "bad-op")
 
 end HcipyVerif.Driver.C05
